@@ -369,14 +369,7 @@ impl Real {
                 events = evs;
             }
             Op::FaultOpen { pol, fail, forever, kind } => {
-                let kind = match kind.as_str() {
-                    "notfound" => std::io::ErrorKind::NotFound,
-                    "denied" => std::io::ErrorKind::PermissionDenied,
-                    "interrupted" => std::io::ErrorKind::Interrupted,
-                    "wouldblock" => std::io::ErrorKind::WouldBlock,
-                    "timedout" => std::io::ErrorKind::TimedOut,
-                    _ => std::io::ErrorKind::Other,
-                };
+                let kind = io_kind(kind);
                 let (oc, evs) = self.open(*pol, Some(FaultPlan { fail_at: *fail, forever: *forever, kind }));
                 annot = format!("{} order={}", op.line(), gc_order(&evs));
                 out.push(oc.line());
@@ -648,6 +641,37 @@ pub fn apply_os(img: &mut Img, op: &OsOp, cut: Option<usize>) {
 /// of the directory (removals since the last directory fsync are assumed done: a file that
 /// reappears only adds older, already superseded entries in front). Returns the image plus the
 /// recipe (`drop` files, `zero` file from offset) that turns the plain prefix image into it.
+/// every stable `io::ErrorKind`, by the token used in case files
+pub const IO_KINDS: [(&str, std::io::ErrorKind); 20] = {
+    use std::io::ErrorKind::*;
+    [
+        ("other", Other),
+        ("notfound", NotFound),
+        ("denied", PermissionDenied),
+        ("interrupted", Interrupted),
+        ("wouldblock", WouldBlock),
+        ("timedout", TimedOut),
+        ("eof", UnexpectedEof),
+        ("invaliddata", InvalidData),
+        ("invalidinput", InvalidInput),
+        ("writezero", WriteZero),
+        ("alreadyexists", AlreadyExists),
+        ("brokenpipe", BrokenPipe),
+        ("unsupported", Unsupported),
+        ("oom", OutOfMemory),
+        ("connrefused", ConnectionRefused),
+        ("connreset", ConnectionReset),
+        ("connaborted", ConnectionAborted),
+        ("notconnected", NotConnected),
+        ("addrinuse", AddrInUse),
+        ("addrnotavailable", AddrNotAvailable),
+    ]
+};
+
+pub fn io_kind(tok: &str) -> std::io::ErrorKind {
+    IO_KINDS.iter().find(|(t, _)| *t == tok).map(|(_, k)| *k).unwrap_or(std::io::ErrorKind::Other)
+}
+
 pub fn power_loss_image(os: &[OsOp], instant: usize) -> (Img, Vec<u64>, Vec<(u64, u64)>) {
     let mut img = Img::new();
     let mut written_end: BTreeMap<u64, u64> = BTreeMap::new();
